@@ -1,5 +1,6 @@
 import SygmaModel.Drv.Util
 import SygmaModel.Model.C20
+import SygmaModel.Model.C20Dur
 namespace Sygma.Drv.C20
 open Sygma.C20
 
@@ -103,6 +104,49 @@ def sameShown (a b : Option V) : Bool := a.map showV == b.map showV
 def PMergeShown (loc shared merged : Chain) : Bool :=
   (loc.map (·.1) ++ shared.map (·.1) ++ merged.map (·.1)).all fun k => sameShown (merged.get k) (wanted loc shared k)
 
+
+/-! durations -/
+
+def unitOf : String → Option DUnit
+  | "ns" => some .ns | "us" => some .us | "µs" => some .us | "μs" => some .us
+  | "ms" => some .ms | "s" => some .s | "m" => some .m | "h" => some .h | _ => none
+
+partial def durTerms (cs : List Char) (acc : List (Nat × DUnit)) : Option (List (Nat × DUnit)) :=
+  if cs.isEmpty then some acc else
+  let ds := cs.takeWhile Char.isDigit
+  let rest := cs.dropWhile Char.isDigit
+  let us := rest.takeWhile fun c => !(c.isDigit || c == '.')
+  let rest' := rest.dropWhile fun c => !(c.isDigit || c == '.')
+  if ds.isEmpty || us.isEmpty then none else
+  match (String.ofList ds).toNat?, unitOf (String.ofList us) with
+  | some v, some u => durTerms rest' (acc ++ [(v, u)])
+  | _, _ => none
+
+/-- (negative?, terms) — `some (neg, none)` is the literal `0`; `none` = outside the integer-term grammar -/
+def parseDurText (s : String) : Option (Bool × Option (List (Nat × DUnit))) :=
+  let cs := s.toList
+  let (neg, body) := match cs with
+    | '-' :: r => (true, r)
+    | '+' :: r => (false, r)
+    | r => (false, r)
+  if body == ['0'] then some (neg, none)
+  else if body.isEmpty then none
+  else (durTerms body []).map fun ts => (neg, some ts)
+
+def durDefault : String → Option Int
+  | "comm" => some 300000000000 | "pingwait" => some 1000000000 | "pingbackoff" => some 1000000000
+  | "pinginterval" => some 1000000000 | "election" => some 2000000000 | "bullywait" => some 180000000000 | _ => none
+
+def showDur : Option Int → String
+  | some x => s!"ok:{x}"
+  | none => "err"
+
+def parseDurOut (s : String) : Option (Option Int) :=
+  if s == "err" then some none else
+  match s.splitOn ":" with
+  | ["ok", x] => x.toInt?.map some
+  | _ => none
+
 def handle (op : String) (args : List String) (impl : String) : Option Verdict :=
   match op, args with
   | "portrange", [w, lo, hi] => some <| Id.run do
@@ -185,6 +229,23 @@ def handle (op : String) (args : List String) (impl : String) : Option Verdict :
             | none => false
         | none => false
     return ⟨m, ok, s!"merge:{loader}:{if want.isSome then "ok" else "err"}:chains={min locals.length 3}:clash={clash}"⟩
+  | "dur", [field, loader, hex] => some <| Id.run do
+    let some dflt := durDefault field | return bad
+    if !(loader == "d" || loader == "f" || loader == "e") then return bad
+    if hex == "-" then
+      let m := showDur (some dflt)
+      return ⟨m, impl == m, "dur:unwritten"⟩
+    let some bytes := fromHex hex | return bad
+    let some text := String.fromUTF8? ⟨bytes.toArray⟩ | return bad
+    match parseDurText text with
+    | none =>
+      -- outside the modelled grammar: only texts that ParseDuration rejects are generated (never fractions)
+      return ⟨"err", impl == "err", "dur:malformed"⟩
+    | some (_, none) => return ⟨"ok:0", impl == "ok:0", "dur:zero"⟩
+    | some (neg, some ts) =>
+      let out := parseDur neg ts
+      let ok := match parseDurOut impl with | some o => PDur neg ts o | none => false
+      return ⟨showDur out, ok, s!"dur:{if out.isSome then "ok" else "err"}:terms={min ts.length 3}:neg={neg}"⟩
   | _, _ => none
 
 end Sygma.Drv.C20
